@@ -59,6 +59,10 @@ RelHolds(fam, rel) ==
             /\ Res(a) = Res(b) /\ Traj(a) = Traj(b) /\ a.idfin = b.idfin /\ a.tfin = b.tfin /\ a.nit = b.nit
        [] rel.type = "transparent" ->   \* b adds save times and/or monitors to a: same trajectory, same final state
             /\ Traj(a) = Traj(b) /\ a.idfin = b.idfin /\ a.tfin = b.tfin /\ a.nit = b.nit
+            \* ... and what is returned for a save time does not depend on the OTHER save times that were requested
+            /\ \A p \in 1..Len(a.res), q \in 1..Len(b.res) :
+                  (a.res[p].t = b.res[q].t /\ ~a.res[p].isfinal /\ ~b.res[q].isfinal) =>
+                     (a.res[p].id = b.res[q].id /\ a.res[p].it = b.res[q].it)
        [] rel.type = "split" ->         \* a = whole run (N+M); b, c = solve N then restart M from b's returned field
             LET c == fam.calls[rel.c] IN
             /\ c.idfin = a.idfin /\ c.tfin = a.tfin
